@@ -731,6 +731,9 @@ def model_quantize(model,
 
   for layer in layers:
     layer_config = layer["config"]
+    # name of the quantized class this layer is converted to (if any); must not
+    # leak from one layer to the next (see registered_name below).
+    q_name = None
 
     # Dense becomes QDense, Conv1D becomes QConv1D etc
     # Activation converts activation functions.
